@@ -35,7 +35,8 @@ from common import Model, exc_name, REPO
 logging.disable(logging.CRITICAL)
 
 LEAN_TARGETS = ["NfcVerif.Props.C09", "drv_c09"]
-PARTS = ["multi"]           # props/c09_multi.py: several threads on one socket, service threads under a deterministic scheduler
+PARTS = ["multi", "races"]  # props/c09_multi.py: several threads on one socket, service / application threads against the real
+#                             run loop under a deterministic scheduler; props/c09_races.py: terminate() at every unlocked line
 
 THEOREMS = [
     "NfcVerif.C09.terminate_notifies_every_waiter",
